@@ -185,6 +185,8 @@ let run (cmd : string) (a : v list) : string =
   | "inex", [lbn; lbd; ubn; ubd; ns; vs] ->
       plist (plist pitem) (InExTree.generate_tree vof (z_ lbn, z_ lbd) (z_ ubn, z_ ubd) (items ns vs))
   | "bc", [keep; c; fuel; vs] -> pres pzbins (BinCompletion.bin_completion (bool_ keep) (z_ c) (nat_ fuel) (zlist vs))
+  | "bcn", [keep; c; fuel; ns; vs] ->
+      pres pbins (BinCompletionNamed.bin_completion_named vof (bool_ keep) (z_ c) (nat_ fuel) (items ns vs))
   | "fbc", [x; its; c] -> plist (plist pz) (BinCompletion.find_bin_completions (z_ x) (zlist its) (z_ c))
   | "cfd", [ls] -> plist (plist pz) (BinCompletion.check_for_dominance (zlistlist ls))
   | "isdom", [l1; l2] -> pbool (BinCompletion.is_dominant (zlist l1) (zlist l2))
